@@ -167,6 +167,13 @@ def check_seq():
                     print(f"SELFTEST FAIL seq {kind} cycle {t} trace={trace[:t+1]} step={outs} sim={got[t]}")
                     return None
             total += len(trace)
+            if k == 0:
+                # the fallback used when a fresh instance differs from the explored one: Amaranth's simulator run on
+                # the very Design object that was compiled must agree with the compiled step function as well
+                same = simulate(h, trace, design=comp.design)
+                if same != got:
+                    print(f"SELFTEST FAIL seq {kind}: simulation of the compiled Design differs from a fresh elaboration")
+                    return None
             if k > 400:
                 break
         print(f"  seq {kind}: states={r.states} transitions={r.transitions} leaves={len(leaves)}")
